@@ -14,6 +14,8 @@ while true; do
       # only when both mutations are there (agent finished) and src is clean
       [ -f $wt/mutation_2/README.md ] || continue
       [ -z "$(git -C $wt status --porcelain -- src)" ] || continue
+      # the agent may still be wrapping up: wait until nothing under the worktree changed for 5 minutes
+      [ -z "$(find $wt/mutation_1 $wt/mutation_2 $wt/tests $wt/src -newermt "-5 minutes" -print -quit 2>/dev/null)" ] || continue
       /verif/tools/confirm_seed.sh $wt $k $id >> $LOG 2>&1
       echo "$key" >> $DONE
     done
